@@ -53,6 +53,7 @@ type PackParams struct {
 	SrcCID   int          `json:"src_cid"`
 	DestCID  int          `json:"dest_cid"`
 	TokenLen int          `json:"token_len,omitempty"`
+	Note     string       `json:"note,omitempty"` // generator label (class bookkeeping only)
 }
 
 // PackOp is one step of a history.
@@ -72,7 +73,8 @@ type PackOp struct {
 	M   int     `json:"m,omitempty"`
 }
 
-func genPackSpec(t *rapid.T, L int) specgen.Desc {
+func genPackSpec(t *rapid.T, L int) (specgen.Desc, string) {
+	note := ""
 	d := specgen.Desc{Base: rapid.SampledFrom(specgen.BaseNames()).Draw(t, "base")}
 	// packet numbers: as in specgen.Gen, a pinned encoding length is able to carry the number
 	minLen := 1
@@ -126,7 +128,9 @@ func genPackSpec(t *rapid.T, L int) specgen.Desc {
 			d.Plans = append(d.Plans, p)
 		}
 	}
-	switch rapid.IntRange(0, 10).Draw(t, "e-builder") {
+	switch rapid.IntRange(0, 12).Draw(t, "e-builder") {
+	case 11, 12:
+		note = genWideFlight(t, L, &d)
 	case 0: // the base's own builder and plans
 	case 1:
 		d.Builder = &specgen.Builder{Kind: "nil"}
@@ -173,7 +177,93 @@ func genPackSpec(t *rapid.T, L int) specgen.Desc {
 		d.Builder = &specgen.Builder{Kind: "flight", Flight: specgen.GenFlight(t, L, L)}
 		d.ClearPlans = true
 	}
-	return d
+	return d, note
+}
+
+// genWideFlight draws a flight plan (QUICFlightFrames / QUICRandomFlightFrames) of 2..4 datagrams that covers the
+// stream in order, with FEWER InitialPackets entries than datagrams being common (the last entry repeats: planFor,
+// validateInitialFlight) and, when the ClientHello is long enough, one datagram - mostly the last, i.e. one of the
+// extra ones - that is too large for its (repeated) budget: just above a 1200..1280-byte packet, above the
+// 1452-byte packet buffer, or far beyond. Such a flight cannot be sent as described and has to be rejected by the
+// first PackCoalescedPacket call, before anything is on the wire; a flight whose datagrams all fit is sent.
+func genWideFlight(t *rapid.T, L int, d *specgen.Desc) string {
+	D := rapid.IntRange(2, 4).Draw(t, "wf-d")
+	big := -1
+	if L >= 1250 && rapid.IntRange(0, 3).Draw(t, "wf-over") != 0 {
+		big = D - 1
+		if rapid.IntRange(0, 9).Draw(t, "wf-where") >= 6 {
+			big = rapid.IntRange(0, D-1).Draw(t, "wf-k")
+		}
+	}
+	split := func(total, parts int) []int { // positive sizes summing to total
+		cuts := map[int]bool{}
+		for i := 1; i < parts && total > 1; i++ {
+			cuts[rapid.IntRange(1, total-1).Draw(t, "wf-cut")] = true
+		}
+		cs := []int{0}
+		for c := range cuts {
+			cs = append(cs, c)
+		}
+		sort.Ints(cs)
+		cs = append(cs, total)
+		var out []int
+		for i := 1; i < len(cs); i++ {
+			out = append(out, cs[i]-cs[i-1])
+		}
+		return out
+	}
+	var sizes []int
+	if big >= 0 {
+		X := rapid.OneOf(rapid.IntRange(1100, 1300), rapid.IntRange(1300, 1460), rapid.IntRange(1453, 2400)).Draw(t, "wf-x")
+		X = max(1100, min(X, L-40*(D-1)))
+		rest := split(L-X, D-1)
+		big = min(big, len(rest))
+		sizes = append(append(append(sizes, rest[:big]...), X), rest[big:]...)
+	} else {
+		sizes = split(L, D)
+	}
+	D = len(sizes)
+	rand := rapid.Bool().Draw(t, "wf-rand")
+	b := &specgen.Builder{Kind: "flight"}
+	if rand {
+		b.Kind = "randflight"
+	}
+	off := 0
+	for i, n := range sizes {
+		ln := n
+		if i == D-1 && rapid.Bool().Draw(t, "wf-open") {
+			ln = 0 // to the end of the stream
+		}
+		if rand {
+			dg := specgen.FlightDG{Ranges: []specgen.Range{{Offset: off, Length: ln}}}
+			if rapid.Bool().Draw(t, "wf-rf") {
+				dg.Frames = specgen.RF{MinPING: 0, MaxPING: uint8(rapid.IntRange(0, 2).Draw(t, "wf-ping")), MinCRYPTO: 1, MaxCRYPTO: uint8(rapid.IntRange(1, 3).Draw(t, "wf-crypto"))}
+			}
+			b.RandFlight = append(b.RandFlight, dg)
+		} else {
+			fs := []specgen.FrameItem{{Kind: "crypto", Offset: off, Length: ln}}
+			if rapid.IntRange(0, 3).Draw(t, "wf-fping") == 0 {
+				fs = append(fs, specgen.FrameItem{Kind: "ping"})
+			}
+			b.Flight = append(b.Flight, fs)
+		}
+		off += n
+	}
+	d.Builder, d.ClearPlans, d.Plans = b, true, nil
+	nplans := rapid.IntRange(0, D).Draw(t, "wf-nplans")
+	for i := 0; i < nplans; i++ {
+		d.Plans = append(d.Plans, specgen.Plan{PacketSize: rapid.SampledFrom([]int{0, 1200, 1200, 1232, 1250, 1280}).Draw(t, "wf-ps")})
+	}
+	switch {
+	case big < 0:
+		return "wide-flight:no-oversize"
+	case nplans > 0 && big >= nplans:
+		return "wide-flight:oversize-beyond-plans"
+	case nplans > 0:
+		return "wide-flight:oversize-within-plans"
+	default:
+		return "wide-flight:oversize-no-plans"
+	}
 }
 
 func genPackParams(t *rapid.T) PackParams {
@@ -198,7 +288,7 @@ func genPackParams(t *rapid.T) PackParams {
 	if rapid.IntRange(0, 3).Draw(t, "e-token") == 0 {
 		p.TokenLen = rapid.SampledFrom([]int{1, 16, 70, 120}).Draw(t, "toklen")
 	}
-	p.Spec = genPackSpec(t, p.CHLen)
+	p.Spec, p.Note = genPackSpec(t, p.CHLen)
 	return p
 }
 
@@ -672,6 +762,12 @@ func (m *packMachine) observe(what string, d *quic.VerifPackedDatagram, idx int,
 		}
 		limit = max(limit, udpMin)
 	}
+	if what == "pack" && plan.PacketSize > 0 && len(lp.Frames) > 0 && len(data) > plan.PacketSize && !(m.exBuild && !planned) {
+		// InitialPacketPlan.PacketSize "forces the exact serialized QUIC packet size"; a planned flight datagram was
+		// validated against it (validateInitialFlight, last entry repeats), a pass-through datagram is capped by the
+		// CryptoLength that comes with the PacketSize
+		return m.bad("C09/packer/exceeds-pinned-packet-size", "%s: pn %d (datagram index %d): datagram of %d bytes, InitialPackets pins this datagram to %d bytes (plan %+v, tracked %s)", what, pn, idx, len(data), plan.PacketSize, plan, trackedString(lp.Frames))
+	}
 	if len(data) > limit {
 		if m.exBuild && !planned {
 			// known, open finding C10/size/overshoot-initial-packet-size: the frame headers, PING and PADDING frames a
@@ -988,6 +1084,18 @@ func (m *packMachine) Finish(u *vf.Unit) *vf.Verdict {
 		}
 	}
 	u.Class("builder:" + m.kind)
+	if m.p.Note != "" {
+		u.Class(m.p.Note)
+		switch {
+		case m.cls["rejected-before-send"]:
+			u.Class(m.p.Note + ":rejected-before-send")
+		case !m.dead:
+			u.Class(m.p.Note + ":sent")
+			if np := len(m.spec.InitialPacketSpec.InitialPackets); np > 0 && m.flightLen > np {
+				u.Class("wide-flight:sent-with-more-datagrams-than-plans")
+			}
+		}
+	}
 	if m.dead {
 		for c := range m.cls {
 			u.Class(c)
